@@ -104,6 +104,18 @@ def _extract_config(repo, tag, outdir, nonce):
         p = os.path.join(outdir, "%s-%s.json" % (c, tag))
         if not os.path.exists(p):
             raise FactsError("fact file missing after extraction: %s (driver skipped?)\n%s" % (p, r.stdout[-3000:]))
+    # keep the crate metadata of exactly this tree for the compile-fail witnesses (E6)
+    deps = os.path.join(target, "debug", "deps")
+    mdir = os.path.join(outdir, "rmeta-" + tag)
+    os.makedirs(mdir, exist_ok=True)
+    t_start = os.path.getmtime(os.path.join(outdir, "%s-%s.json" % (CRATES[0], tag))) - 120
+    for c in CRATES:
+        cands = [os.path.join(deps, f) for f in os.listdir(deps) if f.startswith("lib%s-" % c) and f.endswith(".rmeta")]
+        cands = [f for f in cands if os.path.getmtime(f) >= t_start]
+        if not cands:
+            raise FactsError("rmeta of %s not found after extraction" % c)
+        newest = max(cands, key=os.path.getmtime)
+        shutil.copy2(newest, os.path.join(mdir, os.path.basename(newest)))
     return target
 
 
